@@ -74,7 +74,7 @@ def wrap(stmts, context):
     if context == "fun":
         return "fun c07ctx() {\n" + body + "\n}\nc07ctx()\n"
     if context == "loop":
-        # the trailing `0`: a `for` loop that is the last top-level expression of a session request is only entered, not run
+        # the trailing `0` keeps the loop from being the last top-level expression (which a session request used to only enter, not run)
         body = "\n".join("        " + s for s in stmts)
         return "for c07i in [1] {\n    if True {\n" + body + "\n    }\n}\n0\n"
     raise ValueError(context)
